@@ -2,6 +2,7 @@ package main
 
 import (
 	"fmt"
+	"hash/fnv"
 	"strconv"
 	"strings"
 
@@ -10,6 +11,7 @@ import (
 
 var (
 	portPool  = []string{"80", "443", "53", "8080", "15001", "15006", "15008", "15020", "15021", "15053", "15090", "1", "65535", "3306", "9090", "22", "8443", "54"}
+	listPorts = append(append([]string{}, portPool...), "0") // port lists may name port 0; the proxy's own ports never do
 	idPool    = []string{"1337", "0", "1000", "3", "4", "1", "2", "istio-proxy", "1338", "65534"}
 	groupPool = []string{"java", "202", "888", "ftp", "1337", "1000", "2", "0"}
 	ifPool    = []string{"eth0", "eth1", "not-istio-nic", "docker0", "cni0", "lo", "net1"}
@@ -137,20 +139,20 @@ func genCfg(r *wire.Rng, wide bool) rawCfg {
 	case 1, 2:
 		c.InboundInclude = "*"
 	default:
-		c.InboundInclude = joinList(r, pickSome(r, portPool, 4))
+		c.InboundInclude = joinList(r, pickSome(r, listPorts, 4))
 		if c.InboundInclude == "" && r.Chance(1, 2) {
 			c.InboundInclude = ","
 		}
 	}
 	if r.Chance(1, 2) {
-		c.InboundExclude = joinList(r, pickSome(r, portPool, 3))
+		c.InboundExclude = joinList(r, pickSome(r, listPorts, 3))
 	}
 	// outbound ports
 	if r.Chance(1, 3) {
-		c.OutPortsInclude = joinList(r, pickSome(r, portPool, 3))
+		c.OutPortsInclude = joinList(r, pickSome(r, listPorts, 3))
 	}
 	if r.Chance(1, 2) {
-		c.OutPortsExclude = joinList(r, pickSome(r, portPool, 3))
+		c.OutPortsExclude = joinList(r, pickSome(r, listPorts, 3))
 	}
 	// outbound ranges
 	v6 := wide && r.Chance(1, 2)
@@ -180,9 +182,9 @@ func genCfg(r *wire.Rng, wide bool) rawCfg {
 		c.OwnerGroupsInclude = joinList(r, pickSome(r, groupPool, 3))
 		c.OwnerGroupsExclude = joinList(r, pickSome(r, groupPool, 3))
 	case 4:
-		if r.Chance(1, 4) { // at the limit (64: accepted) and over it (65: Validate refuses)
+		if r.Chance(1, 3) { // Validate's limit (64: accepted, 65: refused) and the restore parser's (49 groups fit a line, 50 do not)
 			var g []string
-			n := 64 + r.Intn(2)
+			n := wire.Pick(r, []int{49, 50, 64, 65, 50 + r.Intn(15)})
 			for i := 0; i < n; i++ {
 				g = append(g, strconv.Itoa(2000+i))
 			}
@@ -200,7 +202,7 @@ func genCfg(r *wire.Rng, wide bool) rawCfg {
 		if r.Chance(1, 3) {
 			c.Mode = "TPROXY"
 			if r.Chance(1, 3) {
-				c.TProxyMark = wire.Pick(r, []string{"1234", "1", "1338", "4294967295", "65536", strconv.Itoa(1 + r.Intn(100000))})
+				c.TProxyMark = wire.Pick(r, []string{"1234", "1", "1338", "4294967295", "65536", "0", strconv.Itoa(1 + r.Intn(100000))})
 			}
 		} else if r.Chance(1, 10) {
 			c.Mode = wire.Pick(r, []string{"", "tproxy", "NONE"})
@@ -243,7 +245,12 @@ func genCfg(r *wire.Rng, wide bool) rawCfg {
 func gen(stream string, seed uint64, n int, path string) {
 	out := wire.Create(path)
 	defer out.Close()
-	root := wire.NewRng(seed*0x9e3779b97f4a7c15 + uint64(len(stream)))
+	// The root state must not be an affine function of the seed (splitmix64 advances its state by a constant:
+	// `seed * constant` would make seed s+1 the same sequence shifted by one draw). Mix the seed through the
+	// generator once and separate the streams by a hash of their name.
+	hs := fnv.New64a()
+	hs.Write([]byte(stream))
+	root := wire.NewRng(wire.NewRng(seed^0x5851f42d4c957f2d).Next() ^ hs.Sum64())
 	for i := 0; i < n; i++ {
 		r := root.Fork()
 		if stream == "apply" {
